@@ -12,7 +12,7 @@
   the hypothesis `NoLoneCR` (LF or CRLF terminators); `window_lone_cr_counterexample` shows the
   hypothesis is necessary (a finding reported by the harness under `lone-cr-window-linecount`).
 -/
-import Gojq.Proofs.LineInfo
+import Gojq.Proofs.LineInfoRunes
 namespace Gojq.C17
 open Gojq Gojq.Cli
 
@@ -26,6 +26,12 @@ theorem lineinfo_line (w : Nat → Nat) (str : Bytes) (hne : str ≠ []) (q : Na
     (getLineByOffset w str ((q : Int) + 1)).2.1 = 1 + termsBefore str (min q (str.length - 1)) := by
   obtain ⟨rel, heq, _⟩ := getLineByOffset'_spec str hne q
   simp only [getLineByOffset, heq]
+
+/-- Offsets ≤ 0 (what `queryParseError.Error` / `jsonParseError.Error` pass when the error carries
+    no position) are treated as offset 1: first line, caret at its first column. -/
+theorem lineinfo_nonpositive (w : Nat → Nat) (str : Bytes) (off : Int) (h : off ≤ 0) :
+    getLineByOffset w str off = getLineByOffset w str 1 :=
+  getLineByOffset_nonpos w str off h
 
 /-- **Excerpt and caret, every byte string.** With `p` the offending byte, `L` its line and `o0` its
     position within `L` (the line end if it is a terminator byte or lies beyond the text):
@@ -54,34 +60,70 @@ theorem lineinfo_excerpt (w : Nat → Nat) (str : Bytes) (hne : str ≠ []) (q :
   obtain ⟨h1, h2, h3, h4, h5, h6, h7, h8, h9, h10, h11⟩ := hex
   exact ⟨a, _, h1, h2, h3, h4, h5, h6, h7, h8, h9, h10, h11, rfl⟩
 
-/-- The full statement of the excerpt/caret clause on valid UTF-8: if the line is a sequence of
-    complete runes (byte chunks `utf8.DecodeRune` accepts, none of them U+FFFD) and the offending
-    byte lies in the rune `c`, the excerpt consists of whole runes — a suffix `pre'` of the runes
-    before `c`, `c` itself, a prefix `post'` of the runes after it — the caret's byte index is the
-    length of `pre'` and the column is `Σ w` over the runes of `pre'`. -/
-def RuneChunk (c : Bytes) : Prop :=
-  c ≠ [] ∧ (Utf8.decodeRune c).2 = (c.length, true) ∧ (Utf8.decodeRune c).1 ≠ Utf8.runeError
+/-- **`lineinfo_correct` — valid UTF-8 lines, offending byte inside a rune.** For every non-empty
+    text, width function and 1-based offset `q+1`: if the offending byte's line is a sequence of
+    complete runes (`RuneChunk`: byte chunks `utf8.DecodeRune` accepts as one rune; U+FFFD excluded,
+    see `lineinfo_ufffd_counterexample`) and the offending byte is byte `j` of the rune `c`, then
+    `getLineByOffset` returns: the line number 1 + terminators before the byte; an excerpt made of
+    whole runes — a suffix `pre'` of the runes before `c`, `c` itself, a prefix `post'` of the runes
+    after it (so it is a substring of the line that contains the offending rune and is cut on rune
+    boundaries); and the column `Σ w` over the runes of `pre'`, i.e. the caret stands under the
+    first column of the offending rune. -/
+theorem lineinfo_correct (w : Nat → Nat) (str : Bytes) (hne : str ≠ []) (q : Nat)
+    (pre post : List Bytes) (c : Bytes) (j : Nat)
+    (hline : trueLine str (min q (str.length - 1)) = (pre ++ c :: post).flatten)
+    (hrunes : ∀ x, x ∈ pre ++ c :: post → RuneChunk x) (hj : j < c.length)
+    (hpos : q - lineStart str (min q (str.length - 1)) = pre.flatten.length + j) :
+    ∃ pre1 pre' post' post'' : List Bytes, pre = pre1 ++ pre' ∧ post = post' ++ post'' ∧
+      getLineByOffset w str ((q : Int) + 1) =
+        ((pre' ++ c :: post').flatten, 1 + termsBefore str (min q (str.length - 1)),
+         (pre'.map (fun x => w (Utf8.decodeRune x).1)).sum) := by
+  obtain ⟨rel, heq, hrel⟩ := getLineByOffset'_spec str hne q
+  have hLlen : (pre ++ c :: post).flatten.length = pre.flatten.length + c.length + post.flatten.length := by
+    simp [List.flatten_append, Nat.add_assoc]
+  rw [hline, hpos, hLlen] at hrel
+  have hoff : (max (rel - 1) 0).toNat = pre.flatten.length + j := by omega
+  obtain ⟨pre1, pre', post', post'', h1, h2, hex⟩ := excerpt_runes pre post c j rel hrunes hj hoff
+  refine ⟨pre1, pre', post', post'', h1, h2, ?_⟩
+  simp only [getLineByOffset, heq, hline, hex]
+  have htake : (pre' ++ c :: post').flatten.take pre'.flatten.length = pre'.flatten := by
+    rw [List.flatten_append, List.take_left]
+  rw [htake, strWidth_flatten w pre' (fun x hx => hrunes x (by rw [h1]; simp [hx]))]
 
-def lineinfo_correct_statement : Prop :=
-  ∀ (w : Nat → Nat) (pre post : List Bytes) (c : Bytes) (j : Nat) (off : Int),
-    (∀ x, x ∈ pre ++ c :: post → RuneChunk x) → j < c.length →
-    (max (off - 1) 0).toNat = pre.flatten.length + j →
-    ∃ pre' post' : List Bytes, pre' <:+ pre ∧ post' <+: post ∧
-      excerpt (pre ++ c :: post).flatten off = ((pre' ++ c :: post').flatten, pre'.flatten.length) ∧
-      strWidth w pre'.flatten = (pre'.map (fun x => w (Utf8.decodeRune x).1)).sum
+/-- **`lineinfo_correct` — offending position at the line end** (the offending byte is a terminator
+    byte, or the offset lies beyond the text as for `io.ErrUnexpectedEOF`): the excerpt is a suffix
+    `pre'` of the line's runes and the column is the width of all of it (caret after the last rune). -/
+theorem lineinfo_correct_line_end (w : Nat → Nat) (str : Bytes) (hne : str ≠ []) (q : Nat) (cs : List Bytes)
+    (hline : trueLine str (min q (str.length - 1)) = cs.flatten)
+    (hrunes : ∀ x, x ∈ cs → RuneChunk x)
+    (hpos : cs.flatten.length ≤ q - lineStart str (min q (str.length - 1))) :
+    ∃ pre1 pre' : List Bytes, cs = pre1 ++ pre' ∧
+      getLineByOffset w str ((q : Int) + 1) =
+        (pre'.flatten, 1 + termsBefore str (min q (str.length - 1)), (pre'.map (fun x => w (Utf8.decodeRune x).1)).sum) := by
+  obtain ⟨rel, heq, hrel⟩ := getLineByOffset'_spec str hne q
+  rw [hline] at hrel
+  have hoff : cs.flatten.length ≤ (max (rel - 1) 0).toNat := by omega
+  obtain ⟨pre1, pre', h1, hex⟩ := excerpt_runes_end cs rel hrunes hoff
+  refine ⟨pre1, pre', h1, ?_⟩
+  simp only [getLineByOffset, heq, hline, hex, List.take_length]
+  rw [strWidth_flatten w pre' (fun x hx => hrunes x (by rw [h1]; simp [hx]))]
 
-/-- **Proved part of `lineinfo_correct_statement`: ASCII lines (every rune one byte).** The excerpt is
-    exactly `L[o0-48 : o0-48+64]`, the caret's byte index is exactly the offending byte's position
-    in the excerpt (or the excerpt's end when the offending position is the line end), and the
-    column is the sum of the widths of the bytes before it.
-    Gap to the full statement: multi-byte runes. For them `lineinfo_excerpt` bounds every cut to
-    within 3 bytes (one rune) of the byte-exact position, and `trimLastInvalidRune`, which makes
-    the cuts, is tied to the code on every byte string of length ≤ 5 over an alphabet of lead and
-    continuation bytes by the `trim` stream and through `getLineByOffset` by the `lineinfo`
-    stream; that each cut lands exactly on a rune boundary is not proved here. It is false when a
-    literal U+FFFD precedes the cut (the harness reports it: `lineinfo:ufffd-before-fault`),
-    which is why `RuneChunk` excludes U+FFFD. -/
-theorem lineinfo_correct_partial (w : Nat → Nat) (L : Bytes) (h : ∀ b, b ∈ L → b.toNat < 0x80) (off : Int) :
+/-- The hypothesis "no U+FFFD" of `lineinfo_correct` is necessary: `trimLastInvalidRune` takes a
+    literal U+FFFD (EF BF BD, valid UTF-8) at the end of a prefix for an invalid rune and drops it,
+    so with `["<U+FFFD><TAB>"]` and the error at the TAB (offset 6) the caret's prefix is `["`,
+    column 2, instead of `["<U+FFFD>`, column 3. The harness reports it on the command under the
+    key `lineinfo:ufffd-before-fault`. -/
+theorem lineinfo_ufffd_counterexample :
+    getLineByOffset (fun _ => 1) [0x5B, 0x22, 0xEF, 0xBF, 0xBD, 0x09, 0x22, 0x5D] 6
+      = ([0x5B, 0x22, 0xEF, 0xBF, 0xBD, 0x09, 0x22, 0x5D], 1, 2) ∧
+    strWidth (fun _ => 1) [0x5B, 0x22, 0xEF, 0xBF, 0xBD] = 3 := by decide
+
+/-- ASCII lines, byte-exact form: the excerpt is exactly `L[o0-48 : o0-48+64]`, the caret's byte
+    index is exactly the offending byte's position in the excerpt (or the excerpt's end when the
+    offending position is the line end), and the column is the sum of the widths of the bytes
+    before it. (Subsumed by `lineinfo_correct` for the rune structure; kept because it gives the
+    window arithmetic explicitly.) -/
+theorem lineinfo_correct_ascii (w : Nat → Nat) (L : Bytes) (h : ∀ b, b ∈ L → b.toNat < 0x80) (off : Int) :
     let o0 := min (max (off - 1) 0).toNat L.length
     let ex := (L.drop (o0 - 48)).take 64
     excerpt L off = (ex, min (o0 - (o0 - 48)) ex.length) ∧
@@ -193,6 +235,7 @@ theorem seekable_reports_true_line (w : Nat → Nat) (bs : Nat) (hbs : 4 ≤ bs)
   seek_report_line w bs hbs inp F h1 h2 hcr
 
 /-! ## Non-vacuity -/
+example : ((-3 : Int) ≤ 0) := by decide
 example : getLineByOffset (fun _ => 1) [97, 98, 13, 10, 99, 100, 10, 101, 102] 6 = ([99, 100], 2, 1) := by decide
 example : termsBefore [97, 98, 13, 10, 99, 100, 10, 101, 102] 5 = 1 ∧ trueLine [97, 98, 13, 10, 99, 100, 10, 101, 102] 5 = [99, 100] := by decide
 example : ([97, 98] : Bytes) ≠ [] ∧ (∀ b, b ∈ ([97, 98] : Bytes) → b.toNat < 0x80) := by decide
@@ -207,5 +250,10 @@ example : NoLoneCR [97, 13, 10, 98] := by
 example : traceOK 8 0 0 [.read 8, .decoded 1, .decoded 3] := by simp [traceOK]
 example : RuneChunk [0xE6, 0xBC, 0xA2] ∧ RuneChunk [0x61] :=
   ⟨⟨by decide, by decide, by decide⟩, ⟨by decide, by decide, by decide⟩⟩
+-- `lineinfo_correct`'s hypotheses are satisfiable: "a漢b" (61 E6BCA2 62), offending byte = 2nd byte of 漢
+example : trueLine [0x61, 0xE6, 0xBC, 0xA2, 0x62] (min 2 4) = (([[0x61]] : List Bytes) ++ [0xE6, 0xBC, 0xA2] :: [[0x62]]).flatten ∧
+    2 - lineStart [0x61, 0xE6, 0xBC, 0xA2, 0x62] (min 2 4) = ([[0x61]] : List Bytes).flatten.length + 1 := by decide
+example : getLineByOffset (fun r => if r = 0x6F22 then 2 else 1) [0x61, 0xE6, 0xBC, 0xA2, 0x62] 3
+    = ([0x61, 0xE6, 0xBC, 0xA2, 0x62], 1, 1) := by decide
 
 end Gojq.C17
